@@ -69,6 +69,17 @@ class Hist:
             except Exception as e:  # noqa: BLE001
                 probes.append(("entry", nn, type(e).__name__))
         sp = g.inputs
+        # ... and seen through the wrapper made now: as_node() of THIS object exposes this object's interface, whatever relatives
+        # (the graphs it was derived from, or derived from it) were wrapped before
+        try:
+            w = g.as_node(name="probe")
+            probes.append(("as_node", list(w.inputs), list(w.outputs), {p: repr(w.get_default_for(p)) for p in w.inputs if w.has_default_for(p)}))
+            want_out = list(g.selected) if g.selected is not None else list(g.outputs)
+            if set(w.inputs) != set(sp.all) or sorted(w.outputs) != sorted(want_out):
+                self.violations.append(f"as_node() of a graph with inputs {sorted(sp.all)} / outputs {sorted(want_out)} exposes inputs {sorted(w.inputs)} / "
+                                       f"outputs {sorted(w.outputs)} (the wrapper of a relative?)")
+        except Exception as e:  # noqa: BLE001
+            probes.append(("as_node", type(e).__name__))
         d = {"required": list(sp.required), "optional": list(sp.optional), "entry": {k: list(v) for k, v in sp.entrypoints.items()},
              "bound": dict(sp.bound), "outputs": list(g.outputs), "selected": g.selected, "eps": g.entrypoints_config,
              "hash": g.definition_hash, "nodes": [(n.name, list(n.inputs), list(n.outputs)) for n in g.iter_nodes()], "name": g.name,
